@@ -140,6 +140,8 @@ public:
       bool isFunc = r.chance(1, 2);
       int arity = (int)r.below(4);
       std::string name = std::string(isFunc ? "f" : "p") + std::to_string(k);
+      // Now and then a long name (they end up in the symbol table and in every trace line).
+      if (r.chance(1, 8)) { static const unsigned len[] = {12, 24, 26, 27, 28, 29, 30, 31, 32, 33, 48, 64, 100, 255, 256, 300}; name += "_" + std::string(len[r.below(16)], (char)('a' + r.below(26))); }
       std::vector<std::string> locals;
       std::string formals;
       for (int a = 0; a < arity; a++) { std::string f = "a" + std::to_string(a); locals.push_back(f); if (a) formals += ", "; formals += "val " + f; }
@@ -212,6 +214,19 @@ inline std::string makeAsm(sim::Rng &r) {
   static const int instreams[] = {0, 0, 0, 255, 256, 512, 1280, 1300};
   int nb = 2 + (int)r.below(8), lab = 0;
   auto data = [&]() { return "d" + std::to_string(r.below((uint64_t)nd)); };
+  // Now and then the program starts by using the registers as reset left them (all zero): their
+  // values reach a data word and standard output before anything has been loaded into them.
+  if (r.chance(1, 5)) {
+    switch (r.below(6)) {
+      case 0: s += "STAM d0\n"; break;
+      case 1: s += "OPR ADD\nSTAM d0\n"; break;
+      case 2: s += "OPR SUB\nSTAM d0\n"; break;
+      case 3: s += "BRZ Lr0\nLDAC 77\nSTAM d0\nLr0\n"; break;
+      case 4: s += "LDBI 0\nOPR ADD\nSTAM d0\n"; break;
+      default: s += "BRN Lr1\nBR Lr2\nLr1\nLDAC 66\nSTAM d0\nLr2\n"; break;
+    }
+    s += "LDAM d0\nLDBM 1\nSTAI 2\nLDAC 0\nSTAI 3\nLDAC 1\nOPR SVC\n";
+  }
   for (int b = 0; b < nb; b++) {
     switch (r.below(7)) {
       case 0: case 1:   // put a character; sometimes the call is simply repeated (areg and the slots survive it)
@@ -245,6 +260,7 @@ inline std::string makeAsm(sim::Rng &r) {
         unsigned kind = (unsigned)r.below(3);
         if (kind) {
           f = "fn" + std::to_string(r.chance(1, 8) && lab > 3 ? (unsigned)r.below(3) : (unsigned)lab);
+          if (r.chance(1, 8)) { static const unsigned len[] = {24, 27, 28, 29, 30, 31, 32, 33, 64, 255, 300}; f += "_" + std::string(len[r.below(11)], (char)('a' + r.below(26))); }
           decl = std::string(kind == 1 ? "PROC " : "FUNC ") + f;
         }
         s += "BR " + over + "\n" + decl + "\nSTAM " + data() + "\nOPR BRB\n" + over + "\n";
@@ -254,6 +270,36 @@ inline std::string makeAsm(sim::Rng &r) {
     }
   }
   s += "LDAM " + data() + "\nLDBM 1\nSTAI 2\nLDAC 0\nOPR SVC\n";
+  return s;
+}
+
+// Programs of an exact size: N directives (labels count) for hexasm, N around the powers of two and
+// the other sizes at which containers grow; and X programs of a random number of simple statements.
+inline std::string makeSizedAsm(sim::Rng &r) {
+  unsigned k = 3 + (unsigned)r.below(10);                  // 8 .. 4096
+  long n = (long)(1u << k) + (long)r.range(-2, 2);
+  if (r.chance(1, 6)) n = (long)(10 + r.below(1500));
+  if (r.chance(1, 10)) n = 3 * (1L << (k > 2 ? k - 2 : 1)) + (long)r.range(-1, 1);   // 1.5 x growth
+  if (n < 9) n = 9;
+  std::string s = "BR start\nDATA " + std::to_string(150000 + r.below(49000)) + "\nstart\n";     // 3 directives
+  long fillers = n - 3 - 5;
+  for (long q = 0; q < fillers; q++) {
+    switch (r.below(4)) {
+      case 0: s += "LDAC " + std::to_string(r.below(70000)) + "\n"; break;
+      case 1: s += "LDBC " + std::to_string(r.below(300)) + "\n"; break;
+      case 2: s += "OPR ADD\n"; break;
+      default: s += "l" + std::to_string(q) + "\n"; break;
+    }
+  }
+  s += "LDAC " + std::to_string(r.below(256)) + "\nLDBM 1\nSTAI 2\nLDAC 0\nOPR SVC\n";                 // 5 directives
+  return s;
+}
+inline std::string makeSizedX(sim::Rng &r) {
+  unsigned a = (unsigned)r.below(r.chance(1, 2) ? 60 : 500), b = (unsigned)r.below(4);
+  std::string s = "val put = 1; val exit = 0;\nvar g;\nproc main() is\n{ g := " + std::to_string(r.below(100));
+  for (unsigned q = 0; q < a; q++) s += r.chance(1, 2) ? "; g := " + std::to_string(r.below(50)) : std::string("; g := g + 1");
+  for (unsigned q = 0; q < b; q++) s += "; put(g, 0)";
+  s += "; exit(g) }\n";
   return s;
 }
 
